@@ -106,6 +106,15 @@ def programs(tier: str):
             disp = [dict(okb) for _ in range(k)]
             disp[pos] = {"enter": "ok", "exit": "ok", "yields": "one"}
             yield {"block": {"kind": "ascope", "supply": [], "disp": disp, "pause": False, "ending": "return"}, "cancels": 0}
+    # scope names containing formatting characters (the library logs around entering / leaving)
+    for suffix in (" 100%", " %s %(x)s"):
+        for k in (1, 2):
+            for bad in (None, ("ok", "raise")):
+                for ending, cancels in bodies:
+                    disp = [{"enter": "ok", "exit": "ok", "yields": "one" if k == 1 else "none"} for _ in range(k)]
+                    if bad:
+                        disp[-1] = {"enter": bad[0], "exit": bad[1], "yields": "none"}
+                    yield {"block": {"kind": "ascope", "supply": [], "disp": disp, "pause": bool(cancels), "ending": ending}, "cancels": cancels, "scope_name_suffix": suffix}
     # the `disposables=` argument in its other legal forms: a tuple, a one-shot generator / iterator,
     # a Disposables object built by the caller
     for form in ("tuple", "generator", "iterator", "object"):
